@@ -301,7 +301,7 @@ def convergence(rec):
 
 def run(ctx):
     bases = base_rules()
-    n = ctx.share(2000 if ctx.quick else 40000)
+    n = ctx.share(12000 if ctx.quick else 80000)
     explore(ctx, cases(len(bases)), body_factory(bases, 9 if ctx.quick else 23), n)
     # every (base, constructor) pair at least once on a fixed non-unit offset box (complete over the finite part)
     pairs = [(i, c) for i in range(len(bases)) for c in CTORS]
